@@ -147,6 +147,11 @@ func (g *genState) newAlloc() {
 	for _, b := range al[:n] {
 		bl = append(bl, fmt.Sprint(b))
 	}
+	if r.Intn(7) == 0 { // a blobber named twice (the request must be rejected)
+		p := r.Intn(len(bl))
+		q := r.Intn(len(bl) + 1)
+		bl = append(bl[:q], append([]string{bl[p]}, bl[q:]...)...)
+	}
 	g.do("newa %d %d %d %d %d %s", r.Intn(nClients), data, parity, size, value, strings.Join(bl, ","))
 }
 
@@ -212,7 +217,7 @@ func (g *genState) step() {
 				continue
 			}
 			verdict := "pass"
-			if r.Intn(5) == 0 {
+			if r.Intn(3) == 0 { // pass rates strictly between 0 and 1 need both verdicts on one blobber
 				verdict = "fail"
 			}
 			g.do("resp %d %d %s", kb[0], kb[1], verdict)
@@ -257,6 +262,10 @@ func (g *genState) step() {
 		add, rem := "-", "-"
 		size, ext := int64(0), 0
 		value := uint64(0)
+		if r.Intn(4) == 0 { // one of the allocation's blobbers re-prices first
+			d := a.BAs[r.Intn(len(a.BAs))]
+			g.do("updb %d - %d", x.blobIdx(d.BlobberID), prices[r.Intn(len(prices))])
+		}
 		switch m := r.Intn(10); {
 		case m < 3: // extend
 			ext = 1
@@ -351,7 +360,14 @@ func (g *genState) step() {
 			verb = "cancel"
 		}
 		if verb == "fin" && k < len(s.S.Allocs) && s.S.Allocs[k].Present && s.S.Allocs[k].Expiration > x.now() && r.Intn(2) == 0 {
-			g.do("tick %d %d %d", s.S.Allocs[k].Expiration-x.now()+int64(r.Intn(3)), 1+r.Intn(3), 1)
+			late := int64(r.Intn(3))
+			switch r.Intn(4) {
+			case 0:
+				late = 100
+			case 1:
+				late = int64(timeUnit) // a whole duration late
+			}
+			g.do("tick %d %d %d", s.S.Allocs[k].Expiration-x.now()+late, 1+r.Intn(3), 1)
 		}
 		g.do("%s %d %s", verb, k, caller)
 		if r.Intn(3) == 0 { // and again
@@ -488,6 +504,30 @@ var scripts = [][]string{
 		"addb 2 107374182400 1000000000 100000000 2 100", "addb 3 107374182400 1000000000 100000000 2 100",
 		"stake b 0 0 1000000000000", "stake b 1 1 1000000000000", "stake b 2 1 1000000000000", "stake b 3 1 1000000000000",
 		"newa 3 2 1 1048577 100000000000 0,1,2", "upd 0 c3 0 1 1 - -", "upd 0 c3 0 0 0 3 -", "upd 0 c3 0 0 1 - -", "cancel 0 c3"},
+	// late-finalize with a pass rate strictly between 0 and 1: blobber 1 passes one challenge and fails one; finalize 100 s
+	// and one duration after expiry: it must be paid value x pass rate, the owner gets the unearned rest
+	{"init fx-passrate-late 1",
+		"addb 0 107374182400 1000000000 100000000 0 100", "addb 1 107374182400 1000000000 100000000 1 100",
+		"addv 0 0", "addv 1 1", "addv 2 2",
+		"stake b 0 0 1000000000000", "stake b 1 1 1000000000000",
+		"stake v 0 3 100000000000", "stake v 1 3 100000000000", "stake v 2 3 100000000000",
+		"newa 3 1 1 1073741824 100000000000 0,1", "newa 3 1 1 1073741824 100000000000 0,1",
+		"commit 0 0 104857600", "commit 0 1 104857600", "commit 1 0 104857600", "commit 1 1 104857600",
+		"tick 86400 5 1", "genc", "genc", "genc", "genc", "resp 0 0 pass", "resp 0 1 pass", "resp 1 0 pass", "resp 1 1 pass",
+		"tick 86400 5 1", "genc", "genc", "genc", "genc", "resp 0 0 fail", "resp 0 1 fail", "resp 1 0 fail", "resp 1 1 fail",
+		"tick 2419300 5 1", "fin 0 c3", "tick 2592000 5 1", "fin 1 c3", "fin 1 b0"},
+	// price change, then extend: the offer delta must use the OLD terms for the share already held
+	{"init fx-reprice-extend 1",
+		"addb 0 107374182400 1000000000 100000000 0 100", "addb 1 107374182400 1000000000 100000000 1 100",
+		"stake b 0 0 1000000000000", "stake b 1 1 1000000000000",
+		"newa 3 1 1 3221225473 100000000000 0,1", "updb 0 - 3000000001", "upd 0 c3 100000000000 0 1 - -",
+		"updb 1 - 500000000", "upd 0 c3 0 1073741824 1 - -", "cancel 0 c3"},
+	// a request naming a blobber twice (with and without enough distinct ones): rejected
+	{"init fx-duplicate-blobber 1",
+		"addb 0 107374182400 1000000000 100000000 0 100", "addb 1 107374182400 1000000000 100000000 1 100", "addb 2 107374182400 1000000000 100000000 2 100",
+		"stake b 0 0 1000000000000", "stake b 1 1 1000000000000", "stake b 2 2 1000000000000",
+		"newa 3 1 1 1073741824 100000000000 0,0", "newa 3 1 1 1073741824 100000000000 1,1,2", "newa 3 2 1 1073741824 100000000000 0,1,1,2",
+		"newa 3 1 1 1073741824 100000000000 2,0,0", "newa 3 1 1 1073741824 100000000000 0,1"},
 	// first write marker of a blobber at exactly the expiration second, another blobber holding challenge value:
 	// finalize fails for ever (0/0 in challengeRewardOnFinalization, models.go 617-631) — outside the four properties'
 	// texts; kept as a boundary case: the model takes the failure as observed
